@@ -181,6 +181,21 @@ func proxyNameExtinct(q *query, b, a *state.VerifStoreTables) bool {
 	return false
 }
 
+// stoppedBeingConnect: an instance that answered Connect queries for the target is still registered after
+// the write but no longer does (re-registered without Connect.Native / as another kind / for another
+// destination): with no Connect rows left the code reads the service extinction index, which nothing bumped.
+func stoppedBeingConnect(q *query, b, a *state.VerifStoreTables) bool {
+	for _, v := range b.Services {
+		if v.PeerName != "" || lower(connectTarget(v)) != lower(q.Service) {
+			continue
+		}
+		if w := svcRow(a, v.Node, v.ServiceID); w != nil && w.PeerName == "" && lower(connectTarget(w)) != lower(q.Service) {
+			return true
+		}
+	}
+	return false
+}
+
 // hasProxyFor: some instance answers Connect queries for the target under ANOTHER service name
 func hasProxyFor(q *query, t *state.VerifStoreTables) bool {
 	for _, v := range t.Services {
@@ -236,6 +251,9 @@ func shapeOfWide(q *query, trees []string, b, a *state.VerifStoreTables, gb, ga 
 	case "ConnectServiceNodes", "CheckConnectServiceNodes", "ServiceGateways", "CheckIngressServiceNodes":
 		if gatewayLinkRemoved(q, gb, ga) {
 			return "gateway-services:mapping-row-removed:index-over-remaining-rows-only"
+		}
+		if q.Peer == "" && (q.Kind == "ConnectServiceNodes" || q.Kind == "CheckConnectServiceNodes") && stoppedBeingConnect(q, b, a) {
+			return "catalog:connect-queries:instance-stops-being-connect:extinction-index-read-while-service-exists"
 		}
 		if q.Peer == "" && q.Kind == "CheckConnectServiceNodes" && proxyNameExtinct(q, b, a) {
 			return "catalog:connect-health:proxy-service-name-extinct:index-over-remaining-names-only"
